@@ -111,10 +111,19 @@ func newAccFixture(c *Ctx, pin8 string, accs ...*accessory.Accessory) (*accFixtu
 
 // newAccFixtureDB: wrap (optional) decorates the database handed to the handlers (e.g. to log SaveEntity calls).
 func newAccFixtureDB(c *Ctx, pin8 string, wrap func(db.Database) db.Database, accs ...*accessory.Accessory) (*accFixture, error) {
+	return newAccFixtureOpt(c, pin8, nil, wrap, accs...)
+}
+
+// newAccFixtureOpt: wrapStorage (optional) decorates the key-value storage underneath the database (e.g. to run
+// something at a chosen point inside a storage operation).
+func newAccFixtureOpt(c *Ctx, pin8 string, wrapStorage func(util.Storage) util.Storage, wrap func(db.Database) db.Database, accs ...*accessory.Accessory) (*accFixture, error) {
 	f := &accFixture{dir: c.ScratchDir(), conns: map[string]*hap.Connection{}, raw: map[string]*fakeConn{}}
 	var err error
 	if f.storage, err = util.NewFileStorage(f.dir); err != nil {
 		return nil, err
+	}
+	if wrapStorage != nil {
+		f.storage = wrapStorage(f.storage)
 	}
 	f.db = db.NewDatabaseWithStorage(f.storage)
 	if wrap != nil {
